@@ -91,6 +91,10 @@ def discharge(ob, timeout_ms=20000, seed=0, both=False):
     first = min(int(timeout_ms), 2500)
     s.set('timeout', first)
     smt2 = s.to_smt2()  # before check(): afterwards the printer shows preprocessed internals
+    if os.environ.get('PYVC_DUMP') and os.environ['PYVC_DUMP'] in ob.name:
+        # developer aid: keep the query of the obligations whose name contains $PYVC_DUMP
+        with open(f'/tmp/pyvc-dump-{os.getpid()}-{abs(hash(smt2)) % 100000}.smt2', 'w') as f_:
+            f_.write('; ' + ob.name + '\n' + smt2)
     r = s.check()
     res = None
     if r == z3.unsat:
